@@ -65,6 +65,10 @@ func classifyStep(st pipeline.Step, err error) string {
 		if kind == "unknown" {
 			return "unknown-without-warning"
 		}
+		if g, ok := st.(*pipeline.GroupStep); ok && countUnknownDeep(g.Steps) > 0 {
+			// a nested step that matched no rule is "anything else" too: it comes with a warning
+			return "known:group(nested unknown step without warning)"
+		}
 		return "known:" + kind
 	case warning.Is(err):
 		if kind != "unknown" {
@@ -155,7 +159,7 @@ func runC15(c *ctx) error {
 	rng := c.rng.Fork()
 	for mask := 0; mask < 1<<len(kindKeys); mask += stride {
 		for _, ty := range types {
-			for variant := 0; variant < 4; variant++ {
+			for variant := 0; variant < 5; variant++ {
 				o := ordered.NewMap[string, any](8)
 				keys := map[string]bool{}
 				var keyList []any
@@ -171,7 +175,13 @@ func runC15(c *ctx) error {
 						order[i], order[j] = order[j], order[i]
 					}
 				}
-				if variant >= 1 {
+				if variant == 4 {
+					// a typed field with a wrongly shaped value: decoding as a command or group step fails hard, the step
+					// falls back to an unknown step — whatever other kind keys it carries, never to another known kind
+					extras = append(extras, core.Pick(rng, []extraKV{{"env", []any{"A", "B"}}, {"env", "nope"}, {"steps", []any{"mystery"}},
+						{"steps", []any{ordered.MapFromItems(ordered.TupleSA{Key: "llama", Value: "Kuzco"})}}, {"matrix", "nope"}, {"cache", []any{[]any{}}}}))
+				}
+				if variant >= 1 && variant != 4 {
 					n := 1 + rng.Intn(3)
 					for i := 0; i < n; i++ {
 						extras = append(extras, core.Pick(rng, c15Extras))
@@ -226,6 +236,16 @@ func runC15(c *ctx) error {
 				want := specKind(keys, ty.v, ty.has)
 				c.res.OracleChecks++
 				desc := map[string]any{"keys": keyList, "type": ty.tag}
+				if variant == 4 {
+					// the malformed value may or may not matter for the selected kind; what is excluded is any OTHER outcome
+					if got != want && !(got == "fallback" && (want == "known:command" || want == "known:group")) {
+						c.res.Fail(core.OracleFailure{What: "a step with a malformed typed field is neither the kind the rule selects nor the unknown-step fallback", Input: map[string]any{"keys": keyList, "type": ty.tag, "malformed": extras[0].k, "value": fmt.Sprint(extras[0].v)}, Got: got, Want: want + " or fallback"})
+					}
+					c.res.Case(fmt.Sprintf("%d/%s/malformed/%s", mask, ty.tag, extras[0].k), mask != 0 || ty.has)
+					c.res.Hist("malformed-typed-field")
+					c.res.Hist("result." + got)
+					continue
+				}
 				if got != want {
 					f := core.OracleFailure{What: "step kind differs from the documented rule", Input: desc, Got: got, Want: want}
 					if hasEmptyKey(extras) {
